@@ -758,6 +758,10 @@ func (cg *ConsumerGroup) run() {
 		// waiting to receive on the unbuffered error channel.
 		select {
 		case <-cg.done:
+			// the member id is still valid after a rebalance-in-progress
+			// error (it was reset above otherwise): leave the group like the
+			// other exit paths do.
+			_ = cg.leaveGroup(memberID)
 			return
 		case cg.errs <- err:
 		}
